@@ -8,6 +8,19 @@ let nat = nat_of_int
 let ion = int_of_nat
 let join sep f l = if l = [] then "-" else String.concat sep (List.map f l)
 
+(* CRC-32 (zlib polynomial) of the live contents: the brief state line of the long directed scripts.  The live
+   region is read straight from the model's array (slots / bytes start .. start+num-1) in one pass. *)
+let crc_tab = Array.init 256 (fun n ->
+  let c = ref n in
+  for _ = 0 to 7 do c := if !c land 1 = 1 then 0xedb88320 lxor (!c lsr 1) else !c lsr 1 done; !c)
+let crc_byte c b = crc_tab.((c lxor b) land 0xff) lxor (c lsr 8)
+let crc_bytes c (l : z list) = List.fold_left (fun c z -> crc_byte c ((int_of_z z) land 255)) c l
+let crc_fin c = (c lxor 0xffffffff) land 0xffffffff
+let rec drop n l = if n <= 0 then l else match l with [] -> [] | _ :: t -> drop (n - 1) t
+let take n l =
+  let rec go n l acc = if n <= 0 then List.rev acc else match l with [] -> List.rev acc | x :: t -> go (n - 1) t (x :: acc) in
+  go n l []
+
 (* ---------------------------------------------------------------- hash map *)
 let hm : key hmap option ref = ref None
 let hm_kind = ref 0
@@ -77,14 +90,27 @@ let unit_of h us =
   let b = bytes_of_hex h in
   List.init us (fun i -> if i < List.length b then List.nth b i else Z0)
 let hexu u = hex_of_bytes u
-let ul_state l =
+let ul_brief = ref false
+let ul_full l =
   Printf.sprintf " n=%d st=%d an=%d d=%s" (ion l.u_num) (ion l.u_start) (ion l.u_anum) (join "." hexu (u_units l))
+let ul_state l =
+  if not !ul_brief then ul_full l else begin
+    let n = ion l.u_num and us = ion l.u_usize in
+    let live = take (n * us) (drop (ion l.u_start * us) l.u_arr) in
+    let e = if n = 0 then "none" else if us = 0 then "-" else "" in
+    let hd = if e <> "" then e else hexu (take us live) in
+    let tl = if e <> "" then e else hexu (drop ((n - 1) * us) live) in
+    Printf.sprintf " n=%d st=%d an=%d crc=%08x hd=%s tl=%s" n (ion l.u_start) (ion l.u_anum)
+      (crc_fin (crc_bytes 0xffffffff live)) hd tl
+  end
 let urcs = function U_OK -> "0" | U_OOB -> "oob"
 
 let ul_line = function
   | ["new"; us; il] ->
     let l = u_init (nat (int_of_string il)) (nat (int_of_string us)) in
+    ul_brief := false;
     ul := Some l; "ok" ^ ul_state l
+  | ["brief"; b] -> ul_brief := (int_of_string b <> 0); "ok"
   | op :: args ->
     (match !ul with
      | None -> "noul"
@@ -112,7 +138,7 @@ let ul_line = function
         | "clear", [] -> fin (u_clear l, U_OK)
         | "reset", [] -> fin (u_reset l, U_OK)
         | "sort", [] -> fin (u_sort l, U_OK)
-        | "dump", [] -> "rc=0" ^ ul_state l ^ " arr=1"
+        | "dump", [] -> "rc=0" ^ ul_full l ^ " arr=1"
         | "destroy", [] -> ul := None; "d"
         | _ -> "?"))
   | _ -> "?"
@@ -211,13 +237,24 @@ let xs_line = function
 (* ---------------------------------------------------------------- pointer list *)
 let pl : plist option ref = ref None
 let hexi b = hex_of_bytes b   (* "-" for the empty item *)
-let pl_state l =
+let pl_brief = ref false
+let pl_full l =
   Printf.sprintf " n=%d st=%d an=%d d=%s z=1" (ion l.pl_num) (ion l.pl_start) (ion l.pl_anum) (join "." hexi (pl_items l))
+let pl_state l =
+  if not !pl_brief then pl_full l else begin
+    let n = ion l.pl_num in
+    let live = List.map (function Some b -> b | None -> []) (take n (drop (ion l.pl_start) l.pl_arr)) in
+    let c = List.fold_left (fun c b -> crc_bytes (crc_byte c ((List.length b) land 255)) b) 0xffffffff live in
+    let hd = if n = 0 then "none" else hexi (List.hd live) in
+    let tl = if n = 0 then "none" else hexi (List.nth live (n - 1)) in
+    Printf.sprintf " n=%d st=%d an=%d crc=%08x hd=%s tl=%s z=1" n (ion l.pl_start) (ion l.pl_anum) (crc_fin c) hd tl
+  end
 let plrcs = function PL_OK -> "0" | PL_OOB -> "oob"
 let slots = function Some b -> hexi b | None -> "nil"
 
 let pl_line = function
-  | ["new"; an] -> let l = pl_init (nat (int_of_string an)) in pl := Some l; "ok" ^ pl_state l
+  | ["new"; an] -> let l = pl_init (nat (int_of_string an)) in pl_brief := false; pl := Some l; "ok" ^ pl_state l
+  | ["brief"; b] -> pl_brief := (int_of_string b <> 0); "ok"
   | op :: args ->
     (match !pl with
      | None -> "nopl"
@@ -237,7 +274,7 @@ let pl_line = function
           "rc=" ^ plrcs rc ^ " v=" ^ (if rc = PL_OK then slots v else "nil") ^ " same=1"
         | "clone", [] -> "c" ^ pl_state (pl_clone l)
         | "sort", [] -> fin (pl_sort l, PL_OK)
-        | "dump", [] -> "rc=0" ^ pl_state l
+        | "dump", [] -> "rc=0" ^ pl_full l
         | "destroy", [] -> pl := None; "d"
         | _ -> "?"))
   | _ -> "?"
